@@ -14,6 +14,30 @@ def hook_commits():
     return [l.split()[0] for l in out.splitlines() if "verif hook" in l]
 
 CHECKS = {
+ "C02": dict(cat="exploration", design="DESIGN.md section 6 C02",
+   text="2-3 simulated devices and the real server: after every step on every device, for every folder, decrypt(replay of the persisted event log) == folder served by the account == decrypt(persisted vault mirror) (name, flags, description, ids, meta, values), plus replay-until-head. Histories mix local edits with checked merges, auto merges (same ids edited on both sides), force merges and compaction, on both backends.",
+   note="Replay-until-commit is checked at the head commit only (earlier commits are covered indirectly because the check runs after every step). Known findings listed in known_findings.json are reported as KNOWN-FINDING. Sampling only.",
+   tech="deterministic simulation: multi-device histories, model-free three-way equality oracle after every step"),
+ "C04": dict(cat="exploration", design="DESIGN.md section 6 C04",
+   text="2-3 devices + real server behind the in-process router; seeded histories of edits (all log types), offline spans, syncs in any order, overlapping syncs under the request scheduler, lost requests/responses, clock skew and ties; then quiescence rounds. Oracles: a sync that reports success leaves the device's per-log status equal to the server's; within 2n+2 rounds every replica reports the same status and serves the same decrypted folders. Violations carry a mechanically derived root-cause class.",
+   note="Liveness is measured in rounds of simulated syncs, never wall time. Several genuine defects remain and are listed as known findings (identical events, device-log divergence, concurrent history rewrites, multi-phase success); their classes are masked, all others are reported. Sampling only.",
+   tech="deterministic simulation: seeded multi-device histories, network fault injection, bounded-round convergence oracle"),
+ "C05": dict(cat="exploration", design="DESIGN.md section 6 C05",
+   text="Same worlds without history rewrites: the harness records every record each device committed locally; at convergence every log on every replica must contain, as a multiset of commit hashes, the shared prefix plus the max-union of the devices' own commits (identical independent events count once), nothing foreign, shared prefix untouched.",
+   note="Order inside the merged region is not checked beyond prefix preservation; the semantic last-writer-wins corollary is covered through C04's content equality and C02. Sampling only.",
+   tech="deterministic simulation: recorded commit history vs converged logs (multiset / prefix oracle)"),
+ "C08": dict(cat="exploration", design="DESIGN.md section 6 C08",
+   text="At every sync point of multi-device histories, for every ordered pair of replicas and every log: CommitTree::compare(head of other) vs the prefix relation on the raw leaf sequences (soundness and completeness), single-leaf proofs at every index verified against the other replica (other lengths included), and the real ancestor scan through client and server vs the true longest common prefix.",
+   note="Decided on replica pairs reachable by simulated histories (thousands of distinct pairs per run batch), not on all sequence pairs; scan paging beyond 32 events is not reached. Sampling only.",
+   tech="deterministic simulation: cross-replica invariant over reachable log pairs"),
+ "C09": dict(cat="exploration", design="DESIGN.md section 6 C09",
+   text="All online devices call sync() at once; every request of the real client parks at the simulated transport and a seeded scheduler (uniform or PCT-like) releases exactly one at a time into the real server router. After every delivery every server log must still contain every previously accepted event; every sync call must end (ok / conflict / error) within a delivery budget; afterwards the sequential quiescence rounds must converge.",
+   note="Interleaving granularity is one request (the shipped handler holds the per-account write lock for a whole request). Distinct delivery sequences are counted as cases. Sampling, not exhaustive enumeration.",
+   tech="deterministic simulation: seeded request-level scheduler over concurrent syncs, monotonicity invariant after each delivery"),
+ "C20": dict(cat="exploration", design="DESIGN.md section 6 C20",
+   text="After every step on every device of the multi-device worlds (local edits, moves, archive, folder add/remove, merges replaying create/update/delete of the same ids, restarts): search index documents == one per live secret with current label/tags/kind/favourite, counters == recount, label queries return exactly live matches.",
+   note="The recount is computed from what the account serves; archived secrets are excluded from kind counters by design. Sampling only.",
+   tech="deterministic simulation: incremental index vs recount after every step"),
  "C01": dict(cat="exploration", design="DESIGN.md section 6 C01",
    text="One simulated device drives the real LocalAccount through seeded histories over the whole operation alphabet (15 secret kinds, custom fields, empty/large values, folder ops, folder-level creates with caller-chosen, re-used and resurrected ids) with sign-out/sign-in and restarts from persisted storage at arbitrary positions; after every step everything the account serves is compared with a sequential model, on both backends and both ciphers. Exploration fits: the guarantee is over histories x configurations.",
    note="Re-use of one secret id in two different folders is excluded (ids are account-wide unique by design; the sqlite schema enforces it). Timestamps inside meta data are not compared. Sampling only.",
